@@ -43,8 +43,12 @@ def generate(rng, tier):
     for b in base:
         k = b["call"]
         call = {"axes": k["axes"], "to": k["to"], "boundary": k["boundary"], "fill": k["fill"]}
-        cases.append({"kind": 0, "ctor": b["ctor"], "dims": b["dims"], "vals": b["vals"], "call": call,
-                      "dtype": b.get("dtype", "float64"), "warmup": b.get("warmup", False)})
+        vals, dt = b["vals"], b.get("dtype", "float64")
+        if max(abs(v) for v in vals) < 20 and rng.random() < 0.2:
+            # 8-bit integers: each value fits (|v| <= 102), the running sums do not
+            vals, dt = [v * 6 for v in vals], "int8"
+        cases.append({"kind": 0, "ctor": b["ctor"], "dims": b["dims"], "vals": vals, "call": call,
+                      "dtype": dt, "warmup": b.get("warmup", False)})
     # inverse: center data, to outer, fill 0
     n = 60 if tier == "quick" else 1000
     for _ in range(n):
@@ -66,8 +70,10 @@ def generate(rng, tier):
             size *= l
         vals = [(5 * i * i + i + 3) % 17 - 4 for i in range(size)]
         call = {"axes": op_axes, "to": "outer", "boundary": "fill", "fill": 0}
-        cases.append({"kind": 1, "ctor": ctor, "dims": dims, "vals": vals, "call": call,
-                      "dtype": rng.choice(["float64", "float64", "int64", "float32"])})
+        dt = rng.choice(["float64", "float64", "int64", "float32", "int8", "int8"])
+        if dt == "int8":
+            vals = [v * 6 for v in vals]      # each fits 8 bits (|v| <= 102); their running sums do not
+        cases.append({"kind": 1, "ctor": ctor, "dims": dims, "vals": vals, "call": call, "dtype": dt})
     return cases
 
 
